@@ -326,7 +326,7 @@ theorem cold_step (F : Ctl) (hF : ColdHyp F) (e : Ev) (r : List Ev) (ks : List S
         rw [this] at hn
         exact hn (by simp))
       (by
-        intro ip' ⟨q, hq, hn, hk, _, _⟩
+        intro _ ip' ⟨q, hq, hn, hk, _, _⟩
         have : q = p := hF.keys q hq p hpF hk
         rw [this] at hn
         exact absurd (by simp) hn)
@@ -972,17 +972,17 @@ theorem cold_start_eq_derive (objs : List Op) (h : String) (hc : ColdOps {} objs
     exact coldFold_slices_nodup objs {} List.nodup_nil hc
 
 /-- **any_order_eq_cold_start** (the property as stated).  Every good history - any interleaving of the
-    per-kind streams, each write handled before the next - after which no slice is stale shows, for
+    per-kind streams, each write handled before the next - after which no slice is stale or waiting shows, for
     every hostname, the same Service, the same endpoint list and (with endpoints) the same service
     accounts as the model's cold start on the same final objects. -/
 theorem any_order_eq_cold_start (ops objs : List Op) (h : String)
-    (hgood : AllGood {} [] ops) (hstale : staleRun {} [] ops = [])
+    (hgood : AllGood {} [] [] ops) (hstale : staleRun {} [] [] ops = []) (hwait : waitRun {} [] [] ops = [])
     (hc : ColdOps {} objs) (hF : ColdHyp (coldFold {} objs).1) (hord : SvcBeforeSlice (coldFold {} objs).2)
     (hso : SameObjects (run {} ops).c (coldFold {} objs).1)
     (hwf : WF (run {} ops).c) (hnu : NodesUnique (coldFold {} objs).1)
     (hnp : NoPodAtUntargeted (run {} ops).c) (hnd : (run {} ops).c.slices.Nodup) :
     ViewAgree (hostView (run {} ops).c h) (hostView (coldRun objs).c h) := by
-  have v1 := convergence_to_derive ops h hgood hstale hwf hnp hnd
+  have v1 := convergence_to_derive ops h hgood hstale hwait hwf hnp hnd
   have v2 := cold_start_eq_derive objs h hc hF hord
   rw [derive_congr _ _ h hso hwf hF.wf hnu hnp hF.nopod hnd
     (coldFold_slices_nodup objs {} List.nodup_nil hc)] at v1
